@@ -97,7 +97,7 @@ Lemma exec_redir_ok_inv :
 Proof.
   intros fl objs x r x' H. unfold exec_redir in H.
   destruct (eval_dst r) as [dz|] eqn:Hd; [|discriminate].
-  destruct (dz <? 0)%Z eqn:Hneg; [destruct fl; discriminate|].
+  destruct (dz <? 0)%Z eqn:Hneg; [discriminate|].
   destruct (release fl x (Z.to_nat dz)) as [[s1 F2] df] eqn:E.
   destruct (eval_src fl objs (grow None (fs_T x) (Z.to_nat dz)) s1 r) as [p own s2| |] eqn:Es;
     try discriminate.
@@ -219,26 +219,56 @@ Qed.
 Definition x0 : fstate :=
   mkFs (init_table []) [] (mkSt [] [] [] [[]; []] [[]; []] led0 false) [].
 
-Lemma negative_dst_fd_crashes :
-  exec_redir Impl [] x0 (mkRedir (Some (FdNum (-1))) MWrite (SFile 0)) = RCrash.
-Proof. reflexivity. Qed.
-
-Lemma negative_src_fd_crashes :
-  exec_redir Impl [] x0 (mkRedir None MWrite (SFd (FdNum (-2)))) = RCrash.
-Proof. reflexivity. Qed.
-
 Lemma minus_one_src_fd_closes :
   exists x', exec_redir Impl [] x0 (mkRedir None MWrite (SFd (FdNum (-1)))) = ROk x'
              /\ tget (fs_T x') 1 = Some closed_port.
 Proof. eexists; split; reflexivity. Qed.
 
-Lemma negative_dst_refuted :
-  exists objs x r, eval_dst r = Some (-1)%Z /\ exec_redir Impl objs x r = RCrash.
-Proof. exists [], x0, (mkRedir (Some (FdNum (-1))) MWrite (SFile 0)). split; reflexivity. Qed.
+(* every invalid fd raises the invalid-fd exception in the code as it is now:
+   a negative destination, a source below -1, a source naming an absent port *)
+Lemma invalid_fd_raises :
+  forall objs x r,
+    (exists dz, eval_dst r = Some dz /\ (dz < 0)%Z)
+    \/ (exists dz z, eval_dst r = Some dz /\ (0 <= dz)%Z /\ r_src r = SFd (FdNum z) /\ (z < -1)%Z)
+    \/ (exists d v, eval_dst r = Some (Z.of_nat d) /\ r_src r = SFd (FdNum (Z.of_nat v))
+                    /\ tget (fs_T x) v = None) ->
+    exists x', exec_redir Impl objs x r = RExc EInvalidFD x'.
+Proof.
+  intros objs x r [[dz [Hd Hl]]|[[dz [z [Hd [Hge [Hs Hl]]]]]|[d [v [Hd [Hs Hn]]]]]].
+  - unfold exec_redir. rewrite Hd.
+    assert (E : (dz <? 0)%Z = true) by lia. rewrite E. eexists; reflexivity.
+  - unfold exec_redir. rewrite Hd.
+    assert (E : (dz <? 0)%Z = false) by lia. rewrite E.
+    destruct (release Impl x (Z.to_nat dz)) as [[s1 F2] df].
+    unfold eval_src. rewrite Hs.
+    assert (E2 : (z <? 0)%Z = true) by lia. rewrite E2.
+    assert (E3 : (z =? -1)%Z = false) by lia. rewrite E3. eexists; reflexivity.
+  - eapply invalid_src_fd_raises; eauto.
+Qed.
 
-Lemma negative_src_refuted :
-  exists objs x r, r_src r = SFd (FdNum (-2)) /\ exec_redir Impl objs x r = RCrash.
-Proof. exists [], x0, (mkRedir None MWrite (SFd (FdNum (-2)))). split; reflexivity. Qed.
+Lemma impl_src_never_crashes : forall objs T s r, eval_src Impl objs T s r <> SCrash.
+Proof.
+  intros objs T s r. unfold eval_src.
+  destruct (r_src r) as [pth|f| |k|]; try discriminate.
+  - destruct (open_file s pth (makeFlag (r_mode r))) as [[i s2]|]; discriminate.
+  - destruct f as [z|n|]; try discriminate.
+    + destruct (z <? 0)%Z; [destruct (z =? -1)%Z; discriminate|]. destruct (tget _ _); discriminate.
+    + destruct (Z.of_nat n <? 0)%Z; [destruct (Z.of_nat n =? -1)%Z; discriminate|].
+      destruct (tget _ _); discriminate.
+  - destruct (nth_error objs k) as [[h|rd wr]|]; try discriminate.
+    destruct (r_mode r); try discriminate; [destruct rd|destruct wr]; discriminate.
+Qed.
+
+(* no redirection makes the interpreter panic any more *)
+Lemma redir_never_crashes : forall fl objs x r, exec_redir fl objs x r <> RCrash.
+Proof.
+  intros fl objs x r. unfold exec_redir.
+  destruct (eval_dst r) as [dz|]; [|discriminate].
+  destruct (dz <? 0)%Z; [discriminate|].
+  destruct (release fl x (Z.to_nat dz)) as [[s1 F2] df].
+  destruct (eval_src fl objs _ s1 r) eqn:E; try discriminate.
+  exfalso. destruct fl; [eapply impl_src_never_crashes|eapply spec_src_never_crashes]; eauto.
+Qed.
 
 (* growAccess allocates dst+1 slots whatever dst is *)
 Lemma huge_fd_allocates :
@@ -340,6 +370,129 @@ Proof.
     cbn [s_fs set_ofds set_fs]. rewrite fs_get_set_same. rewrite write_at_0. reflexivity.
 Qed.
 Transparent write_at.
+
+Lemma close_handle_len s h :
+  length (s_ofds (close_handle s h)) = length (s_ofds s).
+Proof.
+  destruct h as [i|k| |j|j]; simpl; auto.
+  - destruct (nth_error (s_ofds s) i) as [o|]; auto. destruct (o_open o); auto.
+    simpl. apply length_list_upd.
+  - destruct (nth_error (s_pipes s) j) as [p|]; auto. destruct (pi_r p); auto.
+  - destruct (nth_error (s_pipes s) j) as [p|]; auto. destruct (pi_w p); auto.
+Qed.
+
+Lemma close_fop_len s f p : length (s_ofds (close_fop s f p)) = length (s_ofds s).
+Proof.
+  unfold close_fop. destruct (fo_file f); auto. destruct (p_file p); auto. apply close_handle_len.
+Qed.
+
+
+(* ---------------------------------------------------------------- left-to-right composition *)
+Lemma exec_redirs_app fl objs rs1 : forall x rs2,
+  exec_redirs fl objs x (rs1 ++ rs2) =
+  match exec_redirs fl objs x rs1 with
+  | ROk x1 => exec_redirs fl objs x1 rs2
+  | e => e
+  end.
+Proof.
+  induction rs1 as [|r rs1 IH]; intros x rs2; simpl; auto.
+  destruct (exec_redir fl objs x r); auto.
+Qed.
+
+Lemma open_file_index s pth fl i s2 : open_file s pth fl = Some (i, s2) -> i = length (s_ofds s).
+Proof.
+  unfold open_file. intros H.
+  destruct (fs_get (s_fs s) pth); [|destruct (f_creat fl); [|discriminate]]; inversion H; auto.
+Qed.
+
+Lemma release_len x d s1 F2 df :
+  release Impl x d = (s1, F2, df) -> length (s_ofds s1) = length (s_ofds (fs_st x)).
+Proof.
+  unfold release. intros H. destruct (tget (grow None (fs_T x) d) d); inversion H; auto.
+  apply close_fop_len.
+Qed.
+
+(* what the source of a redirection designates, read in the table and state
+   left by the redirections before it *)
+Definition designates (objs : list obj) (x1 : fstate) (r : redir) (p : port) : Prop :=
+  match r_src r with
+  | SFile _ => p = fileRedirPort (r_mode r) (HOfd (length (s_ofds (fs_st x1))))  (* a fresh open file *)
+  | SFd (FdNum z) => ((0 <= z)%Z /\ tget (fs_T x1) (Z.to_nat z) = Some p) \/ (z = (-1)%Z /\ p = closed_port)
+  | SFd (FdName n) => tget (fs_T x1) n = Some p
+  | SFd FdBad => False
+  | SClose => p = closed_port
+  | SObj k =>
+    match nth_error objs k with
+    | Some (OFile h) => p = fileRedirPort (r_mode r) h
+    | Some (OMap rd wr) =>
+      match r_mode r with
+      | MRead => exists h, rd = Some h /\ p = fileRedirPort MRead h
+      | MWrite => exists h, wr = Some h /\ p = fileRedirPort MWrite h
+      | _ => False
+      end
+    | None => False
+    end
+  | SBad => False
+  end.
+
+(* Executing rs1 ++ [r] is executing rs1 and then r; r reroutes exactly its
+   destination fd, to what its source designates in the table left by rs1, and
+   leaves every other fd as rs1 left it. *)
+Lemma redir_routes :
+  forall objs rs1 r x x1 x2,
+    exec_redirs Impl objs x rs1 = ROk x1 ->
+    exec_redir Impl objs x1 r = ROk x2 ->
+    exec_redirs Impl objs x (rs1 ++ [r]) = ROk x2
+    /\ exists d p, eval_dst r = Some (Z.of_nat d)
+                   /\ tget (fs_T x2) d = Some p
+                   /\ designates objs x1 r p
+                   /\ forall i, i <> d -> tget (fs_T x2) i = tget (fs_T x1) i.
+Proof.
+  intros objs rs1 r x x1 x2 H1 H2. split.
+  - rewrite exec_redirs_app, H1. simpl. rewrite H2. reflexivity.
+  - destruct (exec_redir_ok_inv _ _ _ _ _ H2) as (d & s1 & F2 & df & p & own & s2 & Hd & Hr & Hs & ->).
+    exists d, p. split; auto. unfold install; simpl.
+    assert (HL : d < length (grow None (fs_T x1) d)) by apply length_grow.
+    split; [apply tget_upd_same; auto|]. split.
+    + unfold designates. unfold eval_src in Hs. destruct (r_src r) as [pth|f| |k|].
+      * destruct (open_file s1 pth (makeFlag (r_mode r))) as [[i s']|] eqn:E; [|discriminate].
+        inversion Hs; subst. apply open_file_index in E. rewrite E, (release_len _ _ _ _ _ Hr). reflexivity.
+      * destruct f as [z|n|]; try discriminate.
+        -- destruct (z <? 0)%Z eqn:Ez.
+           ++ destruct (z =? -1)%Z eqn:E1; [|discriminate]. inversion Hs; subst. right. split; auto. lia.
+           ++ rewrite tget_grow in Hs. destruct (tget (fs_T x1) (Z.to_nat z)) eqn:Et; [|discriminate].
+              inversion Hs; subst. left. split; auto. lia.
+        -- assert (Ez : (Z.of_nat n <? 0)%Z = false) by lia. rewrite Ez in Hs.
+           rewrite Nat2Z.id, tget_grow in Hs. destruct (tget (fs_T x1) n) eqn:Et; [|discriminate].
+           inversion Hs; subst. reflexivity.
+      * inversion Hs; auto.
+      * destruct (nth_error objs k) as [[h|rd wr]|]; try discriminate.
+        -- inversion Hs; auto.
+        -- destruct (r_mode r); try discriminate.
+           ++ destruct rd as [h|]; [|discriminate]. inversion Hs; subst. exists h; auto.
+           ++ destruct wr as [h|]; [|discriminate]. inversion Hs; subst. exists h; auto.
+      * discriminate.
+    + intros i Hi. rewrite tget_upd_other; auto. apply tget_grow.
+Qed.
+
+(* ---------------------------------------------------------------- witnesses of the remaining defects *)
+Definition prog_early_close : prog :=
+  PForm (Form (CBlock [Form (CEcho [111%N]) [];
+                       Form (CEcho [101%N]) [mkRedir None MWrite (SFd (FdNum 2))]])
+              [mkRedir None MWrite (SFile 0); mkRedir (Some (FdNum 2)) MWrite (SFd (FdNum 1));
+               mkRedir None MWrite (SFile 1)]).
+
+Lemma routed_file_closed_early :
+  exists o, observe Impl [None; None] [] [] prog_early_close = Some o
+    /\ ob_exc o = Some EIO
+    /\ check_C42 [None; None] [] [] prog_early_close o = false.
+Proof. eexists. split; [vm_compute; reflexivity|]. split; vm_compute; reflexivity. Qed.
+
+Lemma pipe_reader_stdin_redirect_crashes :
+  observe Impl [Some []] [] []
+    (PPipe (Form (CEcho [119%N]) []) (Form CSlurp [mkRedir None MRead (SFile 0)]))
+  = Some (mkObs true None [] [] [] [] 0%Z).
+Proof. vm_compute. reflexivity. Qed.
 
 (* ---------------------------------------------------------------- the oracle *)
 (* The property on observables, as a proposition: whenever the reference
